@@ -202,3 +202,75 @@ fn c18_q_generic_masked_load_store_any_mask() {
     assert!(dst[1 + lane] == if active { src[lane] } else { GUARD }, "masked store lane wrong");
     assert!(dst[0] == GUARD && dst[5] == GUARD, "masked store wrote outside its vector");
 }
+
+/// Generic-ISA u8 primitives (16 lanes) agree with their scalar definitions.
+#[kani::proof]
+#[kani::unwind(18)]
+fn c18_q_generic_u8_ops_scalar_def() {
+    let isa = GenericIsa::new();
+    let ops = isa.u8();
+    let a: [u8; 16] = kani::any();
+    let b: [u8; 16] = kani::any();
+    let va = ops.load(&a);
+    let vb = ops.load(&b);
+    let lane: usize = kani::any();
+    kani::assume(lane < 16);
+    let (x, y) = (a[lane], b[lane]);
+    assert!(ops.min(va, vb).to_array()[lane] == x.min(y));
+    assert!(ops.max(va, vb).to_array()[lane] == x.max(y));
+    assert!(ops.and(va, vb).to_array()[lane] == x & y);
+    assert!(ops.xor(va, vb).to_array()[lane] == x ^ y);
+    assert!(ops.not(va).to_array()[lane] == !x);
+    let gt = ops.gt(va, vb);
+    assert!(gt.to_array()[lane] == (x > y));
+    assert!(ops.ge(va, vb).to_array()[lane] == (x >= y));
+    assert!(ops.eq(va, vb).to_array()[lane] == (x == y));
+    assert!(ops.select(va, vb, gt).to_array()[lane] == if x > y { x } else { y });
+    assert!(ops.shift_left::<2>(va).to_array()[lane] == x << 2);
+    assert!(ops.shift_right::<2>(va).to_array()[lane] == x >> 2);
+    kani::cover!(x > y && lane == 15, "last lane greater");
+}
+
+/// No over-read: the source slice is the *tail* of its allocation, so any read
+/// past the slice end leaves the object and is flagged by CBMC's pointer
+/// checks (a masked tail load must not touch the lanes beyond `len`).
+#[kani::proof]
+#[kani::unwind(12)]
+fn c18_q_simd_map_no_overread_i32() {
+    let isa = GenericIsa::new();
+    let ops = isa.i32();
+    let src: [i32; 9] = kani::any();
+    let mut dst: [MaybeUninit<i32>; 9] = [MaybeUninit::new(GUARD); 9];
+    let len: usize = kani::any();
+    kani::assume(len <= 9);
+    {
+        let s = &src[9 - len..];
+        let d = &mut dst[9 - len..];
+        let out = simd_map(ops, (s, d), |x| ops.xor(x, ops.splat(1)));
+        assert!(out.len() == len);
+    }
+    kani::cover!(len == 7, "one vector and a 3-lane tail");
+    let i: usize = kani::any();
+    kani::assume(i < len);
+    assert!(unsafe { dst[9 - len + i].assume_init() } == src[9 - len + i] ^ 1);
+}
+
+/// Same for the in-place form on the tail of an allocation.
+#[kani::proof]
+#[kani::unwind(12)]
+fn c18_q_simd_map_inplace_tail_of_object() {
+    let isa = GenericIsa::new();
+    let ops = isa.i32();
+    let mut buf: [i32; 9] = kani::any();
+    let orig = buf;
+    let len: usize = kani::any();
+    kani::assume(len <= 9);
+    {
+        let xs = &mut buf[9 - len..];
+        simd_map(ops, xs, |x| ops.xor(x, ops.splat(1)));
+    }
+    kani::cover!(len == 6, "one vector and a 2-lane tail");
+    let i: usize = kani::any();
+    kani::assume(i < 9);
+    assert!(buf[i] == if i >= 9 - len { orig[i] ^ 1 } else { orig[i] });
+}
